@@ -364,6 +364,7 @@ fn clean_item(it: &mut syn::Item, derive_keep: &[String], subst: &BTreeMap<Strin
 // ---- function transformation
 
 struct Rules {
+    cloned_collect_fn: Option<String>,
     enumerate_fn: Option<String>,
     impl_arg: bool,
     split_loop: bool,
@@ -421,6 +422,30 @@ impl<'a> VisitMut for RuleVisitor<'a> {
 
     fn visit_expr_mut(&mut self, e: &mut Expr) {
         visit_mut::visit_expr_mut(self, e);
+        if let Some(fname) = &self.rules.cloned_collect_fn {
+            // E17=<f>: `X.iter().cloned().collect()` ==> `<f>(X)` where <f> is a trusted function of the template returning the
+            // vector of the items of a dependency-typed collection (here: the keys of the IndexMap-backed precedence order)
+            let mut repl: Option<Expr> = None;
+            if let Expr::MethodCall(c3) = &*e {
+                if c3.method == "collect" && c3.args.is_empty() {
+                    if let Expr::MethodCall(c2) = &*c3.receiver {
+                        if c2.method == "cloned" && c2.args.is_empty() {
+                            if let Expr::MethodCall(c1) = &*c2.receiver {
+                                if c1.method == "iter" && c1.args.is_empty() {
+                                    let recv = &c1.receiver;
+                                    let f = format_ident!("{}", fname);
+                                    repl = Some(parse_quote!(#f(#recv)));
+                                }
+                            }
+                        }
+                    }
+                }
+            }
+            if let Some(n) = repl {
+                *e = n;
+                self.applied.bump("E17-iter-cloned-collect-as-vector");
+            }
+        }
         if self.rules.let_chains {
             if let Expr::If(ifx) = e {
                 let mut conj: Vec<Expr> = Vec::new();
@@ -968,6 +993,7 @@ fn transform_fn(
         .map(|a| a.iter().filter_map(|x| x.as_str().map(String::from)).collect())
         .unwrap_or_default();
     let rules = Rules {
+        cloned_collect_fn: rule_list.iter().find_map(|r| r.strip_prefix("E17=").map(String::from)),
         enumerate_fn: rule_list.iter().find_map(|r| r.strip_prefix("E16=").map(String::from)),
         impl_arg: rule_list.iter().any(|r| r == "E15"),
         split_loop: rule_list.iter().any(|r| r == "E14"),
